@@ -76,10 +76,11 @@ let () =
           (str_of_hex dg) (z_of_int (int_of_string sz)) w in
       let delivered = total evs - total v.v_base.b_evs in
       Printf.printf "%s %s %d W%s\n" id (res_name e) delivered (digest_str out)
-    | [id; "VR"; hs; dg; sz; comb; sc; ops] ->
+    | id :: "VR" :: hs :: dg :: sz :: comb :: sc :: ops :: limopt when List.length limopt <= 1 ->
+      let lim = (match limopt with [l] -> l | _ -> "-") in
       let h = mk_h (parse_hashes hs) and evs = parse_script sc and comb = (comb = "1") in
       let dg = str_of_hex dg in
-      let v = ref (new_vr fixed (base_of evs "-") dg (z_of_int (int_of_string sz))) in
+      let v = ref (new_vr fixed (base_of evs lim) dg (z_of_int (int_of_string sz))) in
       let outs = List.map (fun op ->
         if op = "v" then begin
           let (e, v') = vr_verify h comb (fuel_of evs) dg !v in
